@@ -2,24 +2,19 @@ import Holpy.Kernel.SemBound
 import Holpy.Kernel.SemVar
 import Holpy.Kernel.SemSubst
 /-
-Soundness of the 15 primitive rules: from premises that are well-typed, signature-correct and
-valid in every finite standard model, every result that passes the checker's post-step type
-check is again well-typed, signature-correct and valid in every model.
+`Good` (what the checker has established about an accepted sequent) and the lemmas the rule
+soundness proofs share: bookkeeping of hypothesis lists, inversion of `check_thm_type` and of the
+logical constants, the meaning of `=`/`⟶`/`∀` at the level of `holds`.  The rule proofs themselves
+are in `SoundnessIn.lean` (for any closed class of valuations; `Good` is the unrestricted class).
 -/
 namespace Holpy
 
-/-- what the checker has established about a sequent it accepted -/
+/-- what the checker has established about a sequent it accepted: it passed `check_thm_type`
+(which includes: the logical constants occur at instances of their declared types only) and it is
+valid in every finite standard model -/
 structure Good (th : Thm) : Prop where
-  wt : Thm.checkThmType th = true
-  sig : Thm.sigOK th = true
+  wt : Thm.checkThmTypeSig th = true
   valid : ∀ M : Model, Valid M th
-
-/-- the terms a rule argument carries use logical constants at instances of their types only -/
-def Arg.sigOK : Arg → Bool
-  | .none => true
-  | .term t => Holpy.sigOK t
-  | .tyinst _ => true
-  | .inst i => i.svars.all (fun p => Holpy.sigOK p.2) && i.vars.all (fun p => Holpy.sigOK p.2)
 
 /-! ### bookkeeping of hypothesis lists -/
 
@@ -60,6 +55,11 @@ theorem sem_bool_lt (M : Model) (ρ : Valuation) (hρ : Admissible M ρ) (t : Te
   have := sem_lt M ρ hρ [] [] (EnvOK.nil_snd M) t Ty.bool h
   rwa [Model.size_bool] at this
 
+theorem Thm.sigOK_iff (th : Thm) : Thm.sigOK th = true ↔
+    (∀ h ∈ th.hyps, Holpy.sigOK h = true) ∧ Holpy.sigOK th.prop = true := by
+  unfold Thm.sigOK
+  rw [Bool.and_eq_true, List.all_eq_true]
+
 theorem Thm.checkThmType_iff (th : Thm) : Thm.checkThmType th = true ↔
     (∀ h ∈ th.hyps, Term.checkedGetType [] h = .ok Ty.bool) ∧
       Term.checkedGetType [] th.prop = .ok Ty.bool := by
@@ -81,10 +81,21 @@ theorem Thm.checkThmType_iff (th : Thm) : Thm.checkThmType th = true ↔
     · exact (key t).2 (H1 t ht)
     · rw [List.mem_singleton.1 ht]; exact (key _).2 H2
 
-theorem Thm.sigOK_iff (th : Thm) : Thm.sigOK th = true ↔
-    (∀ h ∈ th.hyps, Holpy.sigOK h = true) ∧ Holpy.sigOK th.prop = true := by
-  unfold Thm.sigOK
-  rw [Bool.and_eq_true, List.all_eq_true]
+/-- what `check_thm_type` checks -/
+theorem Thm.checkThmTypeSig_iff (th : Thm) : Thm.checkThmTypeSig th = true ↔
+    ((∀ h ∈ th.hyps, Term.checkedGetType [] h = .ok Ty.bool) ∧
+      Term.checkedGetType [] th.prop = .ok Ty.bool) ∧ Thm.sigOK th = true := by
+  unfold Thm.checkThmTypeSig
+  rw [Bool.and_eq_true, Thm.checkThmType_iff]
+
+/-- a sequent that passes `check_thm_type` is well-typed … -/
+theorem Thm.checkThmType_typed (th : Thm) (h : Thm.checkThmTypeSig th = true) :
+    (∀ h ∈ th.hyps, Term.checkedGetType [] h = .ok Ty.bool) ∧
+      Term.checkedGetType [] th.prop = .ok Ty.bool := ((Thm.checkThmTypeSig_iff th).1 h).1
+
+/-- … and uses the logical constants at instances of their declared types only -/
+theorem Thm.checkThmType_sig (th : Thm) (h : Thm.checkThmTypeSig th = true) :
+    Thm.sigOK th = true := ((Thm.checkThmTypeSig_iff th).1 h).2
 
 theorem Thm.mk'_one (p : Term) (hs : List Term) : Thm.mk' p [hs] = ⟨hs, p⟩ := by
   simp [Thm.mk', Thm.addTuple]
@@ -363,44 +374,11 @@ theorem holds_aeq (M : Model) (ρ : Valuation) (a b : Term) (h : Term.aeq a b = 
     holds M ρ a ↔ holds M ρ b := by
   unfold holds; rw [sem_aeq M ρ a b h]
 
-/-- frame for the rules with two premises whose hypotheses are merged -/
-theorem good_two (th1 th2 : Thm) (p : Term) (h1 : Good th1) (h2 : Good th2)
-    (hwt : Thm.checkThmType (Thm.mk' p [th1.hyps, th2.hyps]) = true)
-    (hsig : sigOK p = true)
-    (hval : ∀ M ρ, Admissible M ρ → holds M ρ th1.prop → holds M ρ th2.prop → holds M ρ p) :
-    Good (Thm.mk' p [th1.hyps, th2.hyps]) := by
-  refine ⟨hwt, ?_, ?_⟩
-  · rw [Thm.mk'_two, Thm.sigOK_iff]
-    refine ⟨fun h hm => ?_, hsig⟩
-    rcases Thm.addTuple_sub _ _ _ hm with hm | hm
-    · exact ((Thm.sigOK_iff _).1 h1.sig).1 h hm
-    · exact ((Thm.sigOK_iff _).1 h2.sig).1 h hm
-  · intro M ρ hρ hh
-    rw [Thm.mk'_two] at hh ⊢
-    apply hval M ρ hρ
-    · apply h1.valid M ρ hρ
-      intro h hm
-      obtain ⟨h', hm', ha⟩ := Thm.mem_addTuple th1.hyps th2.hyps h (Or.inl hm)
-      exact (holds_aeq M ρ h h' ha).2 (hh h' hm')
-    · apply h2.valid M ρ hρ
-      intro h hm
-      obtain ⟨h', hm', ha⟩ := Thm.mem_addTuple th1.hyps th2.hyps h (Or.inr hm)
-      exact (holds_aeq M ρ h h' ha).2 (hh h' hm')
-
-/-- frame for the rules with one premise that keep its hypotheses -/
-theorem good_one (th1 : Thm) (p : Term) (h1 : Good th1)
-    (hwt : Thm.checkThmType ⟨th1.hyps, p⟩ = true)
-    (hsig : sigOK p = true)
-    (hval : ∀ M ρ, Admissible M ρ → holds M ρ th1.prop → holds M ρ p) :
-    Good ⟨th1.hyps, p⟩ := by
-  refine ⟨hwt, ?_, ?_⟩
-  · rw [Thm.sigOK_iff]
-    exact ⟨((Thm.sigOK_iff _).1 h1.sig).1, hsig⟩
-  · intro M ρ hρ hh
-    exact hval M ρ hρ (h1.valid M ρ hρ hh)
-
 theorem Good.prop_bool {th : Thm} (h : Good th) :
-    Term.checkedGetType [] th.prop = .ok Ty.bool := ((Thm.checkThmType_iff th).1 h.wt).2
+    Term.checkedGetType [] th.prop = .ok Ty.bool := (Thm.checkThmType_typed th h.wt).2
+
+/-- the signature condition is part of what `check_thm_type` checked -/
+theorem Good.sig {th : Thm} (h : Good th) : Thm.sigOK th = true := Thm.checkThmType_sig th h.wt
 
 theorem Good.prop_sig {th : Thm} (h : Good th) : sigOK th.prop = true :=
   ((Thm.sigOK_iff th).1 h.sig).2
@@ -426,184 +404,6 @@ theorem Term.mkEq_checked (s t e : Term) (T : Ty) (hs : Term.checkedGetType [] s
   rw [Term.getType_of_checked [] s T hs] at hT'
   cases hT'
   rfl
-
-theorem assume_sound (a : Term) (ha : sigOK a = true)
-    (hwt : Thm.checkThmType (Thm.assume a) = true) : Good (Thm.assume a) := by
-  refine ⟨hwt, ?_, ?_⟩
-  · simp [Thm.sigOK, Thm.assume, ha]
-  · intro M ρ hρ hh
-    exact hh a (by simp [Thm.assume])
-
-theorem impliesIntr_sound (a : Term) (th : Thm) (ha : sigOK a = true) (hth : Good th)
-    (hwt : Thm.checkThmType (Thm.impliesIntr a th) = true) : Good (Thm.impliesIntr a th) := by
-  have hw := (Thm.checkThmType_iff _).1 hwt
-  obtain ⟨ha', hp', -⟩ := Term.checked_mkImplies_inv [] _ a th.prop hw.2
-  refine ⟨hwt, ?_, ?_⟩
-  · rw [Thm.sigOK_iff]
-    exact ⟨fun h hm => ((Thm.sigOK_iff _).1 hth.sig).1 h (List.mem_filter.1 hm).1,
-      sigOK_mkImplies _ _ ha hth.prop_sig⟩
-  · intro M ρ hρ hh
-    show holds M ρ (Term.mkImplies a th.prop)
-    rw [holds_mkImplies M ρ hρ a th.prop ha' hp']
-    intro hA
-    apply hth.valid M ρ hρ
-    intro h hm
-    by_cases hc : Term.aeq h a = true
-    · exact (holds_aeq M ρ h a hc).2 hA
-    · exact hh h (List.mem_filter.2 ⟨hm, by simp [hc]⟩)
-
-theorem impliesElim_sound (th1 th2 th : Thm) (h1 : Good th1) (h2 : Good th2)
-    (h : Thm.impliesElim th1 th2 = .ok th) (hwt : Thm.checkThmType th = true) : Good th := by
-  unfold Thm.impliesElim at h
-  split at h
-  · rename_i a b hd
-    split at h
-    · rename_i haeq
-      cases h
-      obtain ⟨hp, ha', hb', hsa, hsb⟩ := impl_inv _ a b _ hd h1.prop_sig h1.prop_bool
-      apply good_two th1 th2 b h1 h2 hwt hsb
-      intro M ρ hρ H1 H2
-      rw [hp, holds_mkImplies M ρ hρ a b ha' hb'] at H1
-      exact H1 ((holds_aeq M ρ a th2.prop haeq).2 H2)
-    · cases h
-  · cases h
-
-theorem reflexive_sound (x : Term) (th : Thm) (hx : sigOK x = true)
-    (h : Thm.reflexive x = .ok th) (hwt : Thm.checkThmType th = true) : Good th := by
-  unfold Thm.reflexive at h
-  obtain ⟨e, he, h⟩ := Thm.liftT_bind_ok _ _ _ h
-  cases h
-  obtain ⟨T, hT, rfl⟩ := Term.mkEq_inv _ _ _ he
-  have hw := (Thm.checkThmType_iff _).1 hwt
-  obtain ⟨hx1, -, -⟩ := Term.checked_eqAt_inv [] T _ x x hw.2
-  refine ⟨hwt, ?_, ?_⟩
-  · rw [Thm.sigOK_iff]
-    exact ⟨fun h hm => (nomatch hm), sigOK_eqAt T x x hx hx⟩
-  · intro M ρ hρ hh
-    exact (holds_eqAt M ρ hρ T x x hx1 hx1).2 rfl
-
-theorem symmetric_sound (th1 th : Thm) (h1 : Good th1)
-    (h : Thm.symmetric th1 = .ok th) (hwt : Thm.checkThmType th = true) : Good th := by
-  unfold Thm.symmetric at h
-  split at h
-  · rename_i x y hd
-    obtain ⟨e, he, h⟩ := Thm.liftT_bind_ok _ _ _ h
-    cases h
-    obtain ⟨T, hp, hx, hy, hsx, hsy⟩ := eq_inv _ x y _ hd h1.prop_sig h1.prop_bool
-    have := Term.mkEq_checked y x e T hy he
-    subst this
-    apply good_one th1 _ h1 hwt (sigOK_eqAt _ _ _ hsy hsx)
-    intro M ρ hρ H
-    rw [hp, holds_eqAt M ρ hρ T x y hx hy] at H
-    rw [holds_eqAt M ρ hρ T y x hy hx]
-    exact H.symm
-  · cases h
-
-theorem transitive_sound (th1 th2 th : Thm) (h1 : Good th1) (h2 : Good th2)
-    (h : Thm.transitive th1 th2 = .ok th) (hwt : Thm.checkThmType th = true) : Good th := by
-  unfold Thm.transitive at h
-  split at h
-  · rename_i x y1 y2 z hd1 hd2
-    split at h
-    · rename_i haeq
-      obtain ⟨e, he, h⟩ := Thm.liftT_bind_ok _ _ _ h
-      cases h
-      obtain ⟨T1, hp1, hx, hy1, hsx, hsy1⟩ := eq_inv _ x y1 _ hd1 h1.prop_sig h1.prop_bool
-      obtain ⟨T2, hp2, hy2, hz, hsy2, hsz⟩ := eq_inv _ y2 z _ hd2 h2.prop_sig h2.prop_bool
-      have hT : T1 = T2 := by
-        have := Term.checkedGetType_aeq y1 y2 haeq []
-        rw [hy1, hy2] at this
-        cases this
-        rfl
-      subst hT
-      have := Term.mkEq_checked x z e T1 hx he
-      subst this
-      apply good_two th1 th2 _ h1 h2 hwt (sigOK_eqAt _ _ _ hsx hsz)
-      intro M ρ hρ H1 H2
-      rw [hp1, holds_eqAt M ρ hρ T1 x y1 hx hy1] at H1
-      rw [hp2, holds_eqAt M ρ hρ T1 y2 z hy2 hz] at H2
-      rw [holds_eqAt M ρ hρ T1 x z hx hz, H1, sem_aeq M ρ y1 y2 haeq, H2]
-    · cases h
-  · cases h
-
-theorem equalIntr_sound (th1 th2 th : Thm) (h1 : Good th1) (h2 : Good th2)
-    (h : Thm.equalIntr th1 th2 = .ok th) (hwt : Thm.checkThmType th = true) : Good th := by
-  unfold Thm.equalIntr at h
-  split at h
-  · rename_i a1 b1 b2 a2 hd1 hd2
-    split at h
-    · rename_i haeq
-      rw [Bool.and_eq_true] at haeq
-      obtain ⟨e, he, h⟩ := Thm.liftT_bind_ok _ _ _ h
-      cases h
-      obtain ⟨hp1, ha1, hb1, hsa1, hsb1⟩ := impl_inv _ a1 b1 _ hd1 h1.prop_sig h1.prop_bool
-      obtain ⟨hp2, hb2, ha2, hsb2, hsa2⟩ := impl_inv _ b2 a2 _ hd2 h2.prop_sig h2.prop_bool
-      have := Term.mkEq_checked a1 b1 e _ ha1 he
-      subst this
-      apply good_two th1 th2 _ h1 h2 hwt (sigOK_eqAt _ _ _ hsa1 hsb1)
-      intro M ρ hρ H1 H2
-      rw [hp1, holds_mkImplies M ρ hρ a1 b1 ha1 hb1] at H1
-      rw [hp2, holds_mkImplies M ρ hρ b2 a2 hb2 ha2] at H2
-      rw [holds_eqAt M ρ hρ _ a1 b1 ha1 hb1]
-      have l1 := sem_bool_lt M ρ hρ a1 ha1
-      have l2 := sem_bool_lt M ρ hρ b1 hb1
-      have e1 := sem_aeq M ρ a1 a2 haeq.1 [] []
-      have e2 := sem_aeq M ρ b1 b2 haeq.2 [] []
-      unfold holds at H1 H2
-      rw [← e1, ← e2] at H2
-      omega
-    · cases h
-  · cases h
-
-theorem equalElim_sound (th1 th2 th : Thm) (h1 : Good th1) (h2 : Good th2)
-    (h : Thm.equalElim th1 th2 = .ok th) (hwt : Thm.checkThmType th = true) : Good th := by
-  unfold Thm.equalElim at h
-  split at h
-  · rename_i a b hd
-    split at h
-    · rename_i haeq
-      cases h
-      obtain ⟨T, hp, ha', hb', hsa, hsb⟩ := eq_inv _ a b _ hd h1.prop_sig h1.prop_bool
-      apply good_two th1 th2 b h1 h2 hwt hsb
-      intro M ρ hρ H1 H2
-      rw [hp, holds_eqAt M ρ hρ T a b ha' hb'] at H1
-      have H3 := (holds_aeq M ρ a th2.prop haeq).2 H2
-      unfold holds at H3 ⊢
-      rw [← H1]; exact H3
-    · cases h
-  · cases h
-
-theorem combination_sound (th1 th2 th : Thm) (h1 : Good th1) (h2 : Good th2)
-    (h : Thm.combination th1 th2 = .ok th) (hwt : Thm.checkThmType th = true) : Good th := by
-  unfold Thm.combination at h
-  split at h
-  · rename_i f g x y hd1 hd2
-    obtain ⟨tf, htf, h⟩ := Thm.liftT_bind_ok _ _ _ h
-    split at h
-    · split at h
-      · cases h
-      · rename_i d hd
-        obtain ⟨tx, htx, h⟩ := Thm.liftT_bind_ok _ _ _ h
-        split at h
-        · obtain ⟨e, he, h⟩ := Thm.liftT_bind_ok _ _ _ h
-          cases h
-          obtain ⟨T1, hp1, hf, hg, hsf, hsg⟩ := eq_inv _ f g _ hd1 h1.prop_sig h1.prop_bool
-          obtain ⟨T2, hp2, hx, hy, hsx, hsy⟩ := eq_inv _ x y _ hd2 h2.prop_sig h2.prop_bool
-          obtain ⟨T, hT, rfl⟩ := Term.mkEq_inv _ _ _ he
-          have hw := (Thm.checkThmType_iff _).1 hwt
-          rw [Thm.mk'_two] at hw
-          obtain ⟨hfx, hgy, -⟩ := Term.checked_eqAt_inv [] T _ _ _ hw.2
-          apply good_two th1 th2 _ h1 h2 hwt
-            (sigOK_eqAt _ _ _ (by simp [sigOK, hsf, hsx]) (by simp [sigOK, hsg, hsy]))
-          intro M ρ hρ H1 H2
-          rw [hp1, holds_eqAt M ρ hρ T1 f g hf hg] at H1
-          rw [hp2, holds_eqAt M ρ hρ T2 x y hx hy] at H2
-          rw [holds_eqAt M ρ hρ T _ _ hfx hgy]
-          simp only [sem]
-          rw [Term.getType_of_checked [] f T1 hf, Term.getType_of_checked [] g T1 hg, H1, H2]
-        · cases h
-    · cases h
-  · cases h
 
 theorem sigOK_incrAt (inc : Nat) (t : Term) : ∀ lev, sigOK (Term.incrAt inc lev t) = sigOK t := by
   induction t with
@@ -686,75 +486,6 @@ theorem Term.substBoundAt_irrel (hi : List Ty) (u u' : Term)
   | svar n T => intro _ _ _; rfl
   | var n T => intro _ _ _; rfl
   | const n T => intro _ _ _; rfl
-
-theorem betaConv_sound (t : Term) (th : Thm) (ht : sigOK t = true)
-    (h : Thm.betaConv t = .ok th) (hwt : Thm.checkThmType th = true) : Good th := by
-  unfold Thm.betaConv at h
-  obtain ⟨t', ht', h⟩ := Thm.catchTerm_bind_ok _ _ _ h
-  obtain ⟨e, he, h⟩ := Thm.liftT_bind_ok _ _ _ h
-  cases h
-  unfold Term.betaConv at ht'
-  split at ht'
-  · rename_i x T b a _
-    simp only [Term.substBound] at ht'
-    cases ht'
-    obtain ⟨S, hS, rfl⟩ := Term.mkEq_inv _ _ _ he
-    have hw := (Thm.checkThmType_iff _).1 hwt
-    obtain ⟨hl, hr, -⟩ := Term.checked_eqAt_inv [] S _ _ _ hw.2
-    simp only [sigOK, Bool.and_eq_true] at ht
-    refine ⟨hwt, ?_, ?_⟩
-    · rw [Thm.sigOK_iff]
-      refine ⟨fun h hm => (nomatch hm), sigOK_eqAt S _ _ ?_ (sigOK_substBoundAt a ht.2 b ht.1 0)⟩
-      simp [sigOK, ht.1, ht.2]
-    · intro M ρ hρ hh
-      exact (holds_eqAt M ρ hρ S _ _ hl hr).2 (sem_beta M ρ hρ [] [] (EnvOK.nil_snd M) x T S b a hl).symm
-  · cases ht'
-
-theorem forallElim_sound (s : Term) (th1 th : Thm) (hs : sigOK s = true) (h1 : Good th1)
-    (h : Thm.forallElim s th1 = .ok th) (hwt : Thm.checkThmType th = true) : Good th := by
-  unfold Thm.forallElim at h
-  split at h
-  · rename_i x T b hd
-    obtain ⟨ts, hts, h⟩ := Thm.liftT_bind_ok _ _ _ h
-    split at h
-    · cases h
-    · rename_i hne
-      obtain ⟨r, hr, h⟩ := Thm.liftT_bind_ok _ _ _ h
-      cases h
-      simp only [Term.substBound] at hr
-      cases hr
-      have hT : T = ts := by simpa using hne
-      subst hT
-      obtain ⟨T', hp, habs, hsabs⟩ := all_inv _ _ _ hd h1.prop_sig h1.prop_bool
-      obtain ⟨tb, hb, hfn⟩ := Term.checked_abs_inv_snd _ _ _ _ _ habs
-      obtain ⟨rfl, rfl⟩ := Ty.fn_inj hfn
-      have hw := (Thm.checkThmType_iff _).1 hwt
-      simp only [sigOK] at hsabs
-      apply good_one th1 _ h1 hwt (sigOK_substBoundAt s hs b hsabs 0)
-      intro M ρ hρ H
-      rw [hp] at H
-      unfold Term.allAt at H
-      rw [holds_all_abs M ρ hρ _ x T' b hb (logicalKind_all_snd T')] at H
-      unfold holds
-      by_cases hc : ∃ T0, Term.checkedGetType [] s = .ok T0
-      · obtain ⟨T0, hT0⟩ := hc
-        have e := Term.getType_of_checked [] s T0 hT0
-        rw [hts] at e
-        cases e
-        have := sem_substBoundAt M ρ [] [] [] [] rfl T' s b hts
-        simp only [List.nil_append, List.length_nil] at this
-        rw [this]
-        exact H _ (sem_lt M ρ hρ [] [] (EnvOK.nil_snd M) s T' hT0)
-      · have hc' : ∀ T0, Term.checkedGetType [] s ≠ .ok T0 := fun T0 h0 => hc ⟨T0, h0⟩
-        have e := Term.substBoundAt_irrel [] s (.var "x" T') hc' b [] Ty.bool hw.2
-        simp only [List.length_nil] at e
-        rw [e]
-        have := sem_substBoundAt M ρ [] [] [] [] rfl T' (.var "x" T') b rfl
-        simp only [List.nil_append, List.length_nil] at this
-        rw [this]
-        exact H _ (hρ 1 "x" T')
-  · cases h
-  · cases h
 
 theorem sigOK_abstractOverAt (x t : Term) :
     ∀ (n : Nat) (t' : Term), Term.abstractOverAt x n t = .ok t' → sigOK t = true →
@@ -852,65 +583,6 @@ theorem hyps_update (M : Model) (ρ : Valuation) (x : Term) (k : Nat) (n : Strin
   rw [sem_update_of_not_occurs M ρ x k n T hk h hno v [] []]
   exact hh h hm
 
-theorem forallIntr_sound (x : Term) (th1 th : Thm) (h1 : Good th1)
-    (h : Thm.forallIntr x th1 = .ok th) (hwt : Thm.checkThmType th = true) : Good th := by
-  unfold Thm.forallIntr at h
-  split at h
-  · cases h
-  · rename_i hocc
-    split at h
-    · cases h
-    · obtain ⟨q, hq, h⟩ := Thm.liftT_bind_ok _ _ _ h
-      cases h
-      obtain ⟨hvl, l, hl, rfl⟩ := Term.mkForall_inv_snd _ _ _ hq
-      obtain ⟨k, n, hk⟩ := varKey_of_isVarLike x hvl
-      refine ⟨hwt, ?_, ?_⟩
-      · rw [Thm.sigOK_iff]
-        exact ⟨((Thm.sigOK_iff _).1 h1.sig).1, sigOK_allAt _ _ (sigOK_mkLambda x _ l hl h1.prop_sig)⟩
-      · intro M ρ hρ hh
-        show holds M ρ (Term.allAt (Term.typeOfAtom x) l)
-        rw [holds_mkForall M ρ hρ x k n _ hk th1.prop _ h1.prop_bool hq]
-        intro v hv
-        exact h1.valid M _ (hρ.update k n _ v hv) (hyps_update M ρ x k n _ hk _ hocc v hh)
-
-theorem abstraction_sound (x : Term) (th1 th : Thm) (h1 : Good th1)
-    (h : Thm.abstraction x th1 = .ok th) (hwt : Thm.checkThmType th = true) : Good th := by
-  unfold Thm.abstraction at h
-  split at h
-  · cases h
-  · rename_i hocc
-    split at h
-    · rename_i t1 t2 hd
-      obtain ⟨l1, hl1, h⟩ := Thm.catchTerm_bind_ok _ _ _ h
-      obtain ⟨l2, hl2, h⟩ := Thm.catchTerm_bind_ok _ _ _ h
-      obtain ⟨e, he, h⟩ := Thm.liftT_bind_ok _ _ _ h
-      cases h
-      obtain ⟨S, hp, ht1, ht2, hs1, hs2⟩ := eq_inv _ t1 t2 _ hd h1.prop_sig h1.prop_bool
-      have hvl := (Term.mkLambda_inv_snd _ _ _ hl1).1
-      obtain ⟨k, n, hk⟩ := varKey_of_isVarLike x hvl
-      have c1 := checked_mkLambda x k n _ hk t1 l1 S ht1 hl1
-      have c2 := checked_mkLambda x k n _ hk t2 l2 S ht2 hl2
-      have := Term.mkEq_checked l1 l2 e _ c1 he
-      subst this
-      refine ⟨hwt, ?_, ?_⟩
-      · rw [Thm.sigOK_iff]
-        exact ⟨((Thm.sigOK_iff _).1 h1.sig).1,
-          sigOK_eqAt _ _ _ (sigOK_mkLambda x _ l1 hl1 hs1) (sigOK_mkLambda x _ l2 hl2 hs2)⟩
-      · intro M ρ hρ hh
-        show holds M ρ (Term.eqAt _ l1 l2)
-        rw [holds_eqAt M ρ hρ _ l1 l2 c1 c2]
-        have b1 := sem_lt M ρ hρ [] [] (EnvOK.nil_snd M) l1 _ c1
-        have b2 := sem_lt M ρ hρ [] [] (EnvOK.nil_snd M) l2 _ c2
-        rw [Model.size_fn] at b1 b2
-        apply code_ext _ _ _ _ b1 b2
-        intro v hv
-        rw [appCode_sem_mkLambda M ρ hρ x k n _ hk t1 l1 S ht1 hl1 v hv,
-          appCode_sem_mkLambda M ρ hρ x k n _ hk t2 l2 S ht2 hl2 v hv]
-        have hv' := h1.valid M _ (hρ.update k n _ v hv) (hyps_update M ρ x k n _ hk _ hocc v hh)
-        rw [hp, holds_eqAt M _ (hρ.update k n _ v hv) S t1 t2 ht1 ht2] at hv'
-        exact hv'
-    · cases h
-
 theorem Forall2.exists_right {α β : Type} {R : α → β → Prop} {l1 : List α} {l2 : List β}
     (h : Forall2 R l1 l2) : ∀ a ∈ l1, ∃ b ∈ l2, R a b := by
   induction h with
@@ -942,64 +614,5 @@ theorem holds_substType (M : Model) (ρ : Valuation) (σ : Ty.TyInst) (t : Term)
   have := sem_substType M ρ σ [] [] t T ht
   simp only [List.map_nil] at this
   rw [this]
-
-theorem substType_sound (σ : Ty.TyInst) (th : Thm) (hth : Good th)
-    (hwt : Thm.checkThmType (Thm.substType σ th) = true) : Good (Thm.substType σ th) := by
-  have hw := (Thm.checkThmType_iff th).1 hth.wt
-  refine ⟨hwt, ?_, ?_⟩
-  · unfold Thm.substType
-    rw [Thm.mk'_one, Thm.sigOK_iff]
-    refine ⟨?_, sigOK_substType σ _ hth.prop_sig⟩
-    intro h hm
-    obtain ⟨h0, hm0, rfl⟩ := List.mem_map.1 hm
-    exact sigOK_substType σ h0 (((Thm.sigOK_iff _).1 hth.sig).1 h0 hm0)
-  · intro M ρ hρ hh
-    unfold Thm.substType at hh ⊢
-    rw [Thm.mk'_one] at hh ⊢
-    show holds M ρ (Term.substType σ th.prop)
-    rw [holds_substType M ρ σ _ _ hw.2]
-    apply hth.valid (M.pull σ) _ (hρ.pull σ)
-    intro h hm
-    rw [← holds_substType M ρ σ h _ (hw.1 h hm)]
-    exact hh _ (List.mem_map_of_mem hm)
-
-theorem substitution_sound (inst : Term.Inst) (th1 th : Thm) (h1 : Good th1)
-    (hi : Arg.sigOK (.inst inst) = true)
-    (h : Thm.substitution inst th1 = .ok th) (hwt : Thm.checkThmType th = true) : Good th := by
-  obtain ⟨σ, hs, p, rfl, hF, hp, hty⟩ := Thm.substitution_spec inst th1 th h
-  rw [Thm.mk'_one] at hwt ⊢
-  have hw1 := (Thm.checkThmType_iff th1).1 h1.wt
-  simp only [Arg.sigOK, Bool.and_eq_true, List.all_eq_true] at hi
-  have key : ∀ t0 t1, t0 ∈ th1.hyps ++ [th1.prop] → Term.checkedGetType [] t0 = .ok Ty.bool →
-      Term.substRec { inst with tyinst := σ } (Term.substType σ t0) = .ok t1 → ∀ M ρ,
-      (holds M ρ t1 ↔
-        holds (M.pull σ) ((instVal M ρ { inst with tyinst := σ }).pull M σ) t0) := by
-    intro t0 t1 hm ht0 hr M ρ
-    have hty' : ∀ n T, (n, T) ∈ Term.getSvars (Term.substType σ t0) → ∀ s,
-        ({ inst with tyinst := σ } : Term.Inst).svars.lookup n = some s →
-        Term.checkedGetType [] s = .ok T := by
-      intro n T hmem s hs
-      obtain ⟨T0, hm0, rfl⟩ := Term.mem_getSvars_substType σ t0 n T hmem
-      exact hty t0 hm n T0 hm0 s hs
-    have e1 := (sem_substRec M ρ _ _ t1 hr hty' [] []).2
-    rw [← holds_substType M _ σ t0 _ ht0]
-    unfold holds
-    rw [e1]
-  refine ⟨hwt, ?_, ?_⟩
-  · rw [Thm.sigOK_iff]
-    constructor
-    · intro h' hm'
-      obtain ⟨h0, hm0, hr⟩ := hF.exists_left h' hm'
-      exact sigOK_substRec _ _ h' hr
-        (sigOK_substType σ h0 (((Thm.sigOK_iff _).1 h1.sig).1 h0 hm0)) hi.1 hi.2
-    · exact sigOK_substRec _ _ p hp (sigOK_substType σ _ h1.prop_sig) hi.1 hi.2
-  · intro M ρ hρ hh
-    show holds M ρ p
-    rw [key th1.prop p (List.mem_append_right _ (List.mem_singleton.2 rfl)) hw1.2 hp M ρ]
-    apply h1.valid (M.pull σ) _ ((hρ.instVal _).pull σ)
-    intro h0 hm0
-    obtain ⟨h', hm', hr⟩ := hF.exists_right h0 hm0
-    rw [← key h0 h' (List.mem_append_left _ hm0) (hw1.1 h0 hm0) hr M ρ]
-    exact hh h' hm'
 
 end Holpy
